@@ -119,6 +119,9 @@ def run_check(prop, tier):
         n = len(per_rule.get(rid, ()))
         if n < fl and not R.errors:
             R.error(f"rule {rid}: only {n} instances found, floor is {fl} (confirmed by hand) - rule would pass vacuously")
-    import fdi
+    import fdi, facts as _facts
+    roots = lambda names: sorted({n.split('::{closure')[0] for n in names})
     return R.finish(mod.EXPLANATION, mod.ASSUMPTIONS, mod.NOT_DECIDED, extra={'instance_floors': floors,
-                    'instances_per_rule': {k: len(v) for k, v in sorted(per_rule.items())}, 'decision_tables': dict(fdi.STATS)})
+                    'instances_per_rule': {k: len(v) for k, v in sorted(per_rule.items())}, 'decision_tables': dict(fdi.STATS),
+                    'functions_interpreted_by_decision_tables': roots(fdi.FOOTPRINT),
+                    'anchor_functions_looked_up': roots(_facts.LOOKUPS)})
